@@ -24,7 +24,13 @@ class Timeseries:
             # not a 2-D column vector.
             assert values.shape[0] == 1 or values.shape[1] == 1, "Only 1D ca.DM objects supported"
             values = values.toarray().ravel()
-        elif isinstance(values, (np.ndarray, list)) and len(values) == 1:
+        elif (
+            isinstance(values, (np.ndarray, list))
+            and len(values) == 1
+            and not hasattr(values[0], "__iter__")
+        ):
+            # A single value is broadcast over all times (a single row of a
+            # two-dimensional array is not: it holds one value per component)
             values = values[0]
 
         if hasattr(values, "__iter__"):
